@@ -137,8 +137,10 @@ def vxint(t, isinf):
 def to_int(v: Val):
     """Encoding of a value as a single SMT Int for storage in the heap."""
     k = v.ty.kind
-    if k in ("int", "ref", "list", "any", "deque", "callref"):
+    if k in ("int", "ref", "list", "any", "deque", "callref", "emptydict"):
         return v.t
+    if k == "set":
+        raise TypeError("a set value cannot be stored in the heap (sets are local values)")
     if k == "str":
         import zlib
         return z3.IntVal(zlib.crc32(v.t.encode()) + 1) if isinstance(v.t, str) else z3.IntVal(1)
@@ -188,8 +190,11 @@ class Heap:
         self.tag = tag
         # shared by the lineage: ids of terms known to denote entry-state references (< alloc on
         # entry) and ids of allocation-counter constants (everything built from them is fresh)
-        self.meta = meta if meta is not None else {"$old": {}, "$allocs": {self.alloc.get_id(): 0},
-                                                   "$alloc0": self.alloc}
+        if meta is None:
+            # a root heap: its list arrays are the entry-state arrays of this lineage
+            meta = {"$old": {}, "$allocs": {self.alloc.get_id(): 0}, "$alloc0": self.alloc,
+                    "$entry": {a.get_id() for arrs in self.mem.values() for a in arrs}}
+        self.meta = meta
 
     # core-region arrays under their historical names (contracts use them)
     @property
@@ -211,6 +216,9 @@ class Heap:
         if name not in self.base:
             # `$$name` = array-valued ghost field (e.g. prefix sums): object -> (Int -> Int)
             self.base[name] = fresh(f"F_{name}{self.tag}", ArrIA if name.startswith("$$") else ArrII)
+            if not name.startswith("$") or name.startswith("$cache_val:"):
+                # ($cache_val:* mirrors the values held by the real `_cache` dict: real references)
+                self.meta["$entry"].add(self.base[name].get_id())
         return self.base[name]
 
     def get(self, name, obj):
@@ -282,8 +290,20 @@ class Heap:
         if a.get_id() not in self.meta["$allocs"]:
             self.meta["$allocs"][a.get_id()] = len(self.meta["$allocs"])
 
+    def _is_entry_value(self, t):
+        """t = F0[x] or El0[l][i] for an entry-state array: a value stored in the entry heap; if it
+        is used as a reference it existed on entry (well-formedness of the entry heap)"""
+        if not z3.is_select(t):
+            return False
+        a = t.arg(0)
+        if a.get_id() in self.meta["$entry"]:
+            return True
+        return z3.is_select(a) and a.arg(0).get_id() in self.meta["$entry"]
+
     def _peel(self, arr, t):
         bound = self.meta["$old"].get(t.get_id())
+        if bound is None and self._is_entry_value(t):
+            bound = (0, 0)
         if bound is None:
             tp = self._alloc_pos(t)      # t itself is `base + k`: distinct from `base + k'`, k' != k, and
             if tp is None:               # from every later counter
